@@ -8,11 +8,11 @@ ids = [p["id"] for p in props]
 # id -> (engine, technique, level text, level note, design_ref)
 claimed = {
  "C17": ("E+B", "exhaustive operand-pair/triple enumeration of every field against a carry-less reference + explicit-state BFS over ReedSolomonEncoder.Encode histories (state = cached generator list read through a hook)",
-         "Every operand pair of every Galois field the library constructs (and every triple for sizes <= 256) is executed on the real code and compared with an independent reference; polynomial division is enumerated over all divisors/dividends up to a stated degree; the Reed-Solomon encoder is explored as a state machine (BFS to a fixpoint over request orders, state key = reflective digest of every field) with syndromes, reference remainder and cache contents checked in every state, and on every 3-symbol data vector of the small fields (a 2-symbol-exhaustive slice of the GF(256) fields). Field laws are finite statements, so exhaustive enumeration decides them outright; the unbounded parts (polynomial degree, data length) are covered to stated bounds.",
+         "Every operand pair of every Galois field the library constructs (and every triple for sizes <= 256) is executed on the real code and compared with an independent reference; polynomial division is enumerated over all divisors/dividends up to a stated degree; the Reed-Solomon encoder is explored as a state machine (BFS to a fixpoint over request orders, state key = reflective digest of every field) with syndromes, reference remainder and cache contents checked in every state, and on every 3-symbol data vector of the small fields (a 2-symbol-exhaustive slice of the GF(256) fields); every check-symbol count 1..min(600, q-1) is requested on a fresh encoder per field, and the data is always passed as a window of a larger buffer that must stay unchanged. Field laws are finite statements, so exhaustive enumeration decides them outright; the unbounded parts (polynomial degree, data length) are covered to stated bounds.",
          "Trusted: the reference carry-less multiplication in harness/checks/c17.go. Polynomial sweeps are bounded (coefficient counts in evidence.bounds); GF(1024)/GF(4096) associativity follows from equality with the reference ring and is not enumerated.",
          "4.C17"),
  "C18": ("B", "explicit-state BFS over BitList operation sequences (exact concrete state key via hook, clone-based successors), every observer compared with a []bool model after every transition",
-         "All operation sequences up to the stated depth from the empty list, from NewBitList(n) and from lists pre-filled to within k bits of every internal growth and word boundary are executed on the real BitList (the observers GetBytes/IterateBytes/GetBit are operations of the alphabet too; the state key digests every struct field by reflection); Len, every GetBit, GetBytes and the drained IterateBytes channel are compared with a boolean-slice model in every reached state, and the iterator goroutine must be gone. The sequence space is what unit tests cannot sample; bounded exhaustive search over it with an exact state key is the natural decision procedure.",
+         "All operation sequences up to the stated depth from the empty list, from NewBitList(n) and from lists pre-filled to within k bits of every internal growth and word boundary are executed on the real BitList (the observers GetBytes/IterateBytes/GetBit are operations of the alphabet too; the state key digests every struct field by reflection); Len, every GetBit, GetBytes and the drained IterateBytes channel are compared with a boolean-slice model in every reached state (also with one byte view kept open while a second list is iterated), and the iterator goroutine must be gone. The sequence space is what unit tests cannot sample; bounded exhaustive search over it with an exact state key is the natural decision procedure.",
          "Trusted: the []bool model and packing in harness/checks/c18.go; hooks VerifBitListState/VerifBitListClone (read/copy only). Bounds (depth, k) in evidence.bounds.",
          "4.C18"),
 }
@@ -21,33 +21,33 @@ E_NOTE = "Trusted: the reference decoder and tables in harness/oracle (own trans
 def E(text): return text
 claimed.update({
  "C05": ("E", "bounded exhaustive enumeration of Code 128 contents x checksum variants, each symbol decoded by an independent strict reference decoder (code sets A/B/C, switches, check character)",
-         "Every content over class-representative, full-alphabet and macro alphabets up to the stated lengths, and a length grid 1..82, is encoded by the real encoder and decoded from its pixels by a reference decoder that shares no table with the library; the decoded runes, the modulo-103 check character and the code-set transition sequences are compared/recorded for every execution.", E_NOTE, "4.C05"),
+         "Every content over class-representative, full-alphabet and macro alphabets up to the stated lengths, and a length grid 1..82, is encoded by the real encoder and decoded from its pixels by a reference decoder that shares no table with the library; the decoded runes, the modulo-103 check character and the code-set transition sequences are compared/recorded for every execution; a refusal of a content inside the stated domain (1..80 characters over the alphabet) is a violation too.", E_NOTE, "4.C05"),
  "C06": ("E", "exhaustive enumeration of EAN inputs (all 10^7 seven-digit strings; eight-digit strings; 12/13-digit family; malformed strings), decoded by an independent reference decoder",
          "All seven-digit inputs and (thorough) all 10^8 eight-digit inputs are executed; acceptance, appended/validated GS1 check digit, guard bars, L/G/R digit sets, EAN-13 first-digit parity, Content and kind are checked on each.", E_NOTE, "4.C06"),
  "C07": ("E", "bounded exhaustive enumeration of Code 39/93 texts x includeChecksum x fullASCII, decoded by independent reference decoders (patterns, gaps, check characters mod 43 / C,K mod 47, full-ASCII pairs)",
-         "All words up to length 2 (thorough 3) over the complete alphabets in all four option mixes for both symbologies, plus strings longer than the Code 93 weight periods with every single and double foreign position, are encoded and decoded back; check characters must be present exactly when requested.", E_NOTE, "4.C07"),
+         "All words up to length 2 (thorough 3) over the complete alphabets in all four option mixes for both symbologies, plus strings longer than the Code 93 weight periods with every single and double foreign position and every length whose symbol ends within a character or two of 4096 and 8192 modules, are encoded and decoded back; check characters must be present exactly when requested.", E_NOTE, "4.C07"),
  "C08": ("E", "bounded exhaustive enumeration of Codabar strings and digit strings (both 2-of-5 variants, AddCheckSum), incl. rune-width classes, decoded by independent reference decoders",
-         "All Codabar words up to length 5 (thorough 6) and all digit words up to length 6 (thorough 7) plus multi-byte rune classes are executed; symbols are decoded from narrow/wide element runs; the check-digit helper is verified against the 3-1 weighted sum.", E_NOTE, "4.C08"),
+         "All Codabar words up to length 5 (thorough 6) and all digit words up to length 6 (thorough 7) plus multi-byte rune classes and the lengths whose symbols end near 4096 and 8192 modules are executed; symbols are decoded from narrow/wide element runs; the check-digit helper is verified against the 3-1 weighted sum.", E_NOTE, "4.C08"),
  "C14": ("E+B", "the C05/C06/C07 enumerations with the CheckSum() oracle, plus exhaustive sequences of 1..3 Scale operations on a fixed sub-family",
          "CheckSum() is compared with the reference check value and with the decoded check character on every accepted EAN / Code 128 / Code 39 input of the enumerations, and must be preserved (and still exposed) through every sequence of up to three Scale operations.", E_NOTE, "4.C14"),
 })
 
 claimed.update({
  "C01": ("E", "bounded exhaustive enumeration of QR contents x levels x modes over class/full alphabets and a capacity grid covering all 40 versions, each symbol decoded by an independent strict ISO 18004 reference reader",
-         "Every explored (content, level, mode) is rendered by the real encoder and read back from the pixels: function patterns, BCH-valid format/version words, unmasking, de-interleaving with an independently sourced block table, zero RS syndromes for every block, segment parsing, terminator and pad codewords; decoded bytes must equal the input. The capacity grid places symbols at cap-1/cap/cap+1 of every version x level x mode (thorough: every length), so every block layout and both sides of every capacity constant are executed.", E_NOTE, "4.C01"),
+         "Every explored (content, level, mode) is rendered by the real encoder and read back from the pixels: function patterns, BCH-valid format/version words, unmasking, de-interleaving with an independently sourced block table, zero RS syndromes for every block, segment parsing, terminator and pad codewords; decoded bytes must equal the input. The capacity grid places symbols at cap-1/cap/cap+1 of every version x level x mode (thorough: every length), so every block layout and both sides of every capacity constant are executed; every length from capacity(40)+2 to beyond the 16-bit wrap of the payload bit count (and around 2^15/2^16 characters) must be refused rather than truncated; the alphabets contain runes above U+00FF whose low byte is a digit or a letter.", E_NOTE, "4.C01"),
  "C02": ("E", "bounded exhaustive enumeration of DataMatrix contents (class words, all byte pairs, codeword-count grid over all 24 sizes), decoded by an independent strict ECC 200 reader",
          "Each symbol is checked for finder/clock of every region, read through an independent Annex F placement, RS-checked per interleaved block and ASCII-decoded incl. upper shift and 253-state pads; decoded bytes must equal the input. The grid reaches every capacity boundary five ways.", E_NOTE, "4.C02"),
  "C03": ("E", "bounded exhaustive enumeration of Aztec payloads x ecc% x layer requests (class words, all byte pairs, binary-shift threshold runs, capacity boundary of every layer request), decoded by an independent strict ISO 24778 reader",
-         "Each symbol is checked for bullseye, orientation marks, RS-valid mode message consistent with the size, complete reference grid, RS-valid data words without all-0/all-1 words, then un-stuffed and decoded through all modes/shifts/binary shift; payload and honoured layer request are compared.", E_NOTE, "4.C03"),
+         "Each symbol is checked for bullseye, orientation marks, RS-valid mode message consistent with the size, complete reference grid, RS-valid data words without all-0/all-1 words, then un-stuffed and decoded through all modes/shifts/binary shift; payload and honoured layer request are compared. Macro words over runs long enough to latch drive every latch path of the five-mode automaton; runs of punctuation pairs reach the largest byte counts that fit.", E_NOTE, "4.C03"),
  "C04": ("E", "bounded exhaustive enumeration of PDF417 data x security levels (sub-mode class words, all byte pairs, macro words over compaction segments, length grid), decoded by an independent strict ISO 15438 reader",
-         "Each symbol is checked for start/stop, cluster discipline, left/right row indicators, RS validity over GF(929) with directly computed syndromes, and decoded through text/byte/numeric compaction with all sub-modes; decoded bytes must equal the input. Macro words drive the compaction automaton through the transitions (shifted byte between text, numeric latches, pads in each sub-mode) where state can desynchronise.", E_NOTE + " PDF417 bar-space table: structural validation + pinned digest (trusted base).", "4.C04"),
+         "Each symbol is checked for start/stop, cluster discipline, left/right row indicators, RS validity over GF(929) with directly computed syndromes, and decoded through text/byte/numeric compaction with all sub-modes; decoded bytes must equal the input. Macro words drive the compaction automaton through the transitions (shifted byte between text, numeric latches, pads in each sub-mode) where state can desynchronise; words over six-byte groups at every power of 900 and over 44-digit groups with leading zeros exercise the base conversions; the capacity boundary (900 codewords) of every level is placed exactly.", E_NOTE + " PDF417 bar-space table: structural validation + pinned digest (trusted base).", "4.C04"),
 })
 
 claimed.update({
  "C09": ("B", "breadth-first exploration of chains of Scale/ScaleWithFill operations over full and relative size windows, every pixel compared with an integer arithmetic reference model",
          "From one smallest symbol of every encoder family (and five symbols with >= 100 modules on a sparse window around 1x, 2x, 3x) under two colour schemes, every (width,height) in 1..3x+2 and chains of up to 2 (thorough 3) further scalings are executed on the real code and on an integer-only reference model; refusal/acceptance must agree at every step, and bounds, every pixel, Content, Metadata and CheckSum at the end. This covers every residue of the integer factor and of the centring margin, both sides of the error boundary, and already-scaled sources.", "Trusted: the arithmetic model in harness/checks/c09.go (accepts either rounding of an odd margin). Sources: the smallest symbol of each family plus five large ones; Scale only looks at bounds/dimensionality/accessors.", "4.C09"),
  "C10": ("E", "bounded exhaustive enumeration of every encoder entry point over alphabets, full parameter domains and capacity edges under a recover wrapper + watchdog, against a three-valued representability oracle",
-         "Every call explored by the round-trip enumerations, plus boundary-alphabet words (incl. non-ASCII digits/letters/space), all 256 PDF417 level bytes, Aztec layers -40..40 x percentages 0..100+, runs of non-ASCII characters, beyond-capacity inputs, and the differential rule that what automatic Aztec sizing fits into a size the explicit request for that size must accept, must return, with exactly one of barcode/error, accepting what is representable and refusing what is not (an explicit unspecified band never alarms).", E_NOTE + " Non-termination is decided by a 180 s per-call watchdog.", "4.C10"),
+         "Every call explored by the round-trip enumerations, plus boundary-alphabet words (incl. non-ASCII digits/letters/space), all 256 PDF417 level bytes, Aztec layers -40..40 x percentages 0..100+, runs of non-ASCII characters, runes whose truncation is a digit or letter, dense sweeps beyond capacity (past the 16-bit wrap of QR bit counts, around 2^15..2^17 characters/codewords/bits for the other 2D codes, every Code 128 length to 700), long linear symbols around 4096/8192 modules, and the differential rule that what automatic Aztec sizing fits into a size the explicit request for that size must accept, must return, with exactly one of barcode/error, accepting what is representable and refusing what is not (an explicit unspecified band never alarms).", E_NOTE + " Non-termination is decided by a 180 s per-call watchdog.", "4.C10"),
  "C11": ("E", "exhaustive families x WithColor variants x 12 colour schemes x representative contents of every symbol size; every pixel compared by identity with the scheme's two colours and with the plain symbol's module matrix",
          "The plain symbol is validated by the family's reference decoder (prescribed size, Metadata, Content, black on white) and its module matrix is snapshotted (it must not change when other contents of the family are rendered afterwards); then every colour scheme is rendered and each pixel must be identical to exactly the scheme's foreground or background, give the same module matrix, and ColorModel/ColorScheme/Metadata/Content must report correctly.", E_NOTE, "4.C11"),
  "C12": ("E", "the QR/PDF417/Aztec/DataMatrix enumerations with the decoders' structure records as oracle (declared level, check-codeword counts, zero syndromes, Aztec check bits vs percentage), plus the full Aztec percentage grid",
@@ -55,13 +55,13 @@ claimed.update({
  "C13": ("E", "capacity-boundary sweeps against reference capacity models; for Aztec exhaustive refusal check of all smaller explicit layer requests per point",
          "QR version <= reference minimum at cap-1/cap/cap+1 (thorough: every length) of every version x level x mode incl. Auto; DataMatrix size == smallest for the reference ASCII encodation length; every smaller explicit Aztec request is refused; PDF417 padding < one row.", E_NOTE, "4.C13"),
  "C15": ("B", "explicit-state BFS over encode-operation sequences from cold package state (state = both generator caches via hook, exact key, snapshot/restore successors) with fresh-OS-process observations as oracle; exhaustive post-hoc mutation of every []byte argument",
-         "Every operation of a 62-operation alphabet (incl. 14 refused calls) is observed in every reachable cache state (fixpoint) and in all raw sequences up to length 2 (thorough 3) and must equal what a freshly started process returns for the same call; caches must equal reference generators. All ordered pairs of a per-family input alphabet (about 25 000 depth-2 histories) plus QR cross-mode payload-bit collision pairs are executed back to back: second observation == fresh-process observation, and the barcode returned first is re-observed after the second call (snapshot). About 5 000 short payloads are each encoded 6 times in place (determinism). Map-iteration independence is decided structurally; every byte of every slice argument is overwritten after the call and the barcode must not change.", "Trusted: sha256 observation digest; hooks VerifReset/VerifCacheState/VerifRestore; operation alphabet covers every distinct generator degree QR/DataMatrix can request.", "4.C15"),
+         "Every operation of a 62-operation alphabet (incl. 14 refused calls) is observed in every reachable cache state (fixpoint) and in all raw sequences up to length 2 (thorough 3) and must equal what a freshly started process returns for the same call; caches must equal reference generators. All ordered pairs of a per-family input alphabet (about 25 000 depth-2 histories) plus QR cross-mode payload-bit collision pairs are executed back to back: second observation == fresh-process observation, and the barcode returned first is re-observed after the second call (snapshot). About 5 000 short payloads are each encoded 6 times in place (determinism). Bursts: for every DataMatrix size and every distinct QR check-codewords-per-block value, a reference content, thousands of block encodes of other contents of the same size, the reference content again (same barcode, caches equal reference generators). The pair alphabets include Scale calls and the WithColor entry points; the Aztec argument is a window of a larger caller buffer that must stay unchanged as a whole. Map-iteration independence is decided structurally; every byte of every slice argument is overwritten after the call and the barcode must not change.", "Trusted: sha256 observation digest; hooks VerifReset/VerifCacheState/VerifRestore; operation alphabet covers every distinct generator degree QR/DataMatrix can request.", "4.C15"),
 })
 
 claimed.update({
  "C16": ("S", "stateless schedule exploration of the instrumented real code under a hand-written controlled scheduler: DFS over choice sequences with iterative preemption bounding, group-level reduction for cross-call harnesses, exact global-state-key pruning for single-call pipelines; plus a separate free-running -race pass (detector)",
-         "The current /repo sources are mechanically rewritten (go/ast + go/types) so that go statements, channel operations, package sync and every statement of lock-guarded files are scheduling points. Go statements (with arguments), channel operations, package sync (Mutex, RWMutex, WaitGroup, Once, Pool, Map) and every statement of functions that touch lock-guarded or run-time-written package-level state are scheduling points; such state is reset before every execution. S1 explores all interleavings (<= 2, thorough 3 preemptions) of concurrent Encode calls on one generator cache at statement granularity; S2 all pairs (thorough: triples) of top-level QR/DataMatrix/Scale calls from cold package state and, for every encoder family, two different calls of that family against each other; S3 every schedule of each goroutine pipeline inside a call (iterateModules, alphanumeric producer incl. all error paths, IterateBytes+splitToBlocks, whole qr.Encode calls incl. capacity-filling, tied-mask and refused ones), preceded by reversed/rotated-order probes. On every complete schedule: no panic, no deadlock, no goroutine left parked, each call's result equals its sequential / fresh-process result, caches equal reference generators. Every reported schedule is replayed twice with identical traces before it is believed.",
-         "Data races on memory the scheduler does not instrument, and weak memory orderings, are outside the family: S4 (free-running -race pass over {mixed, qr, rs} x goroutines {2,8,64} x GOMAXPROCS {1,2,4,16}, fresh process each) complements as a sampling detector and can only add violations. Preemption bounds and the state-key soundness premise (threads of one call interact only through hooked operations) are stated in evidence.",
+         "The current /repo sources are mechanically rewritten (go/ast + go/types) so that go statements, channel operations, package sync and every statement of lock-guarded files are scheduling points. Go statements (with arguments), channel operations, package sync (Mutex, RWMutex, WaitGroup, Once, Pool, Map, Cond), buffered and unbuffered channels, and every statement of functions that touch lock-guarded or run-time-written package-level state are scheduling points; such state is reset before every execution. S1 explores all interleavings (<= 2, thorough 3 preemptions) of concurrent Encode calls on one generator cache at statement granularity; S2 all pairs (thorough: triples) of top-level QR/DataMatrix/Scale calls from cold package state and, for every encoder family, two different calls of that family against each other (incl. equal symbol sizes under different colour schemes); S3 every schedule of each goroutine pipeline inside a call (iterateModules, alphanumeric producer incl. all error paths, IterateBytes+splitToBlocks, whole qr.Encode calls incl. capacity-filling, tied-mask and refused ones, one symbol of every version 1..40), preceded by reversed/rotated-order probes. On every complete schedule: no panic, no deadlock, no goroutine left parked, each call's result equals its sequential / fresh-process result, caches equal reference generators. Every reported schedule is replayed twice with identical traces before it is believed.",
+         "Data races on memory the scheduler does not instrument, and weak memory orderings, are outside the family: S4 (free-running -race pass over {mixed, qr, rs, same, color, qrall} x goroutines {2,8,64} x GOMAXPROCS {1,2,4,16} and {3,5,6,7} for the QR modes, fresh process each, observations compared with a GOMAXPROCS=1 baseline process) complements as a sampling detector and can only add violations. Preemption bounds and the state-key soundness premise (threads of one call interact only through hooked operations) are stated in evidence.",
          "4.C16"),
 })
 pending_reason = "check not built yet in this round (planned, see DESIGN.md section 4); not claimed until its explorer exists and passes on the unchanged tree"
